@@ -7,5 +7,6 @@ CONSTANTS
   CHUNK = 48000
   MaxBlockSize = 7788
   TimeoutPerChunk = FALSE
+  SerErrorsFatal = TRUE
   Streams <- StreamsProbe
 INVARIANTS TypeOK NoDesync
